@@ -24,7 +24,10 @@ def tuple_match(thir):
         if m.get("k") == "match" and m.get("src", "").startswith("Normal") and m.get("sty", "").startswith("(&chalk_ir::TyKind<") \
                 and m["sty"].count("chalk_ir::TyKind<") == 2:
             out.append(m)
-    return out
+    from core import merge_delegating_arms
+    merged = [merge_delegating_arms(m) for m in out]
+    inner = {id(a) for m0, mm in zip(out, merged) if mm is not m0 for a in mm.get("arms", [])}
+    return [mm for m0, mm in zip(out, merged) if not (mm is m0 and any(id(a) in inner for a in m0.get("arms", [])))]
 
 
 def is_err(node):
@@ -107,8 +110,8 @@ def run(ck, facts, tier):
     ck.floor("C18.FLEX-TRUE", "TyKind-variants", len(variants), 23)
     if not (zt and rel and variants):
         return
-    zm = tuple_match(zt.thir)
-    rm = tuple_match(rel.thir)
+    zm = tuple_match(facts.thir(zt.key))
+    rm = tuple_match(facts.thir(rel.key))
     if len(zm) != 1 or len(rm) != 1:
         ck.violation("C18.FLEX-TRUE", "match-on-kind-pair", zt.where(), "expected one (TyKind, TyKind) match in zip_tys and relate_ty_ty "
                      "(found %d / %d)" % (len(zm), len(rm)))
@@ -392,7 +395,7 @@ def alias_rows(ck, facts, R):
     variants = facts.variants(TYKIND) or []
     if not zt or not variants:
         return
-    zm = tuple_match(zt.thir)
+    zm = tuple_match(facts.thir(zt.key))
     if len(zm) != 1:
         ck.violation(R, "match-on-kind-pair", zt.where(), "expected one (TyKind, TyKind) match in zip_tys")
         return
